@@ -2,7 +2,7 @@
    Statements only; every proof is [exact <lemma from Proofs/TsigMsgP.v>].
    [hmac] is universally quantified: the theorems hold for every MAC function (the
    second-preimage resistance of HMAC is the stated cryptographic assumption of c11_tamper). *)
-From QV Require Import Base.ListX Model.TsigMsg Spec.Tsig8945S Spec.TsigRepr Proofs.TsigEncP Proofs.TsigMsgP Proofs.TsigInjP.
+From QV Require Import Base.ListX Model.TsigMsg Spec.Tsig8945S Spec.TsigRepr Proofs.TsigEncP Proofs.TsigMsgP Proofs.TsigInjP Proofs.TsigTotalP.
 
 (* The octets the signer feeds to the authenticator are the digest components of RFC 8945
    4.3.1-4.3.3 / 5.3.1, in all three modes, for every message, key name, time, fudge, error,
@@ -154,6 +154,24 @@ Proof.
     repeat split; vm_compute; reflexivity.
 Qed.
 
+(* Totality on everything the Reader can deliver: ANY RDATA accepted by validate_as_tsig (not only
+   encodings of structured records) converts without panic, and all accessor ranges lie inside it ... *)
+Theorem c11_try_from_total : forall rr, validate_as_tsig (rr_rdata rr) = Ok tt ->
+  rr_type rr = TYPE_TSIG -> rr_class rr = QCLASS_ANY -> rr_ttl rr = 0%N ->
+  exists r, read_tsig_try_from rr = Ok r /\ r_rdata r = rr_rdata rr /\
+    exists ol, r_algo_len r + r_mac_len r + ol + 16 = length (rr_rdata rr).
+Proof. exact try_from_total. Qed.
+
+(* ... and verify_* then never panics, for every message of at least 12 octets with ARCOUNT <> 0, with
+   the algorithm looked up by the RR's algorithm name (what the server does). *)
+Theorem c11_verify_total : forall hmac r ol msg mode a key now,
+  r_algo_len r + r_mac_len r + ol + 16 = length (r_rdata r) ->
+  alg_from_name (r_algorithm r) = Some a ->
+  12 <= length msg -> be_dec (slice msg 10 12) <> 0%N ->
+  (match mode with VResponse pm => (N.of_nat (length pm) <= 65535)%N | _ => True end) ->
+  verify hmac r msg mode a key now <> Panic.
+Proof. exact verify_total. Qed.
+
 Print Assumptions c11_sign_digest_eq.
 Print Assumptions c11_sign.
 Print Assumptions c11_read.
@@ -165,3 +183,5 @@ Print Assumptions c11_check_time_no_overflow.
 Print Assumptions c11_check_time.
 Print Assumptions c11_digest_injective.
 Print Assumptions c11_tamper_rejected.
+Print Assumptions c11_try_from_total.
+Print Assumptions c11_verify_total.
